@@ -84,4 +84,65 @@ theorem publishEN_visitsA (n : Nat) (P : Prog) (e : Expr) (seg : List LCell) (h 
     VisitsA P e seg :=
   pubE_visitsA P _ (table_visitsA P n) e seg h
 
+/-! ### what is reached is covered -/
+
+/-- `VisitsA` implies `Covers` for any list of cells containing the visited ones (by the recursor of the mutual predicate) -/
+theorem visitsA_covers (P : Prog) {e : Expr} {seg : List LCell} (h : VisitsA P e seg) :
+    ∀ cells : List LCell, (∀ c ∈ seg, c ∈ cells) → Covers P cells e := by
+  refine VisitsA.rec (P := P)
+    (motive_1 := fun e seg _ => ∀ cells : List LCell, (∀ c ∈ seg, c ∈ cells) → Covers P cells e)
+    (motive_2 := fun es seg _ => ∀ cells : List LCell, (∀ c ∈ seg, c ∈ cells) → ∀ e ∈ es, Covers P cells e)
+    ?_ ?_ ?_ ?_ ?_ ?_ ?_ ?_ ?_ ?_ ?_ ?_ ?_ ?_ ?_ ?_ ?_ ?_ ?_ ?_ h
+  · intro _ _ _; exact .lit
+  · intro _ _ _; exact .var
+  · intro _ _; exact .now
+  · intro _ _; exact .samplerate
+  · intro _ _; exact .self
+  · intro _ _ _ _; exact .lam
+  · intro _ _ _ _ ih cells hs; exact .un (ih cells hs)
+  · intro _ _ _ _ _ _ _ iha ihb cells hs
+    exact .bin (iha cells (fun c hc => hs c (List.mem_append_left _ hc)))
+      (ihb cells (fun c hc => hs c (List.mem_append_right _ hc)))
+  · intro _ _ _ _ _ _ _ _ _ ihc iha ihb cells hs
+    exact .ite (ihc cells (fun c hc => hs c (List.mem_append_left _ hc)))
+      (iha cells (fun c hc => hs c (List.mem_append_right _ (List.mem_append_left _ hc))))
+      (ihb cells (fun c hc => hs c (List.mem_append_right _ (List.mem_append_right _ hc))))
+  · intro _ _ _ _ _ _ _ iha ihb cells hs
+    exact .letE (iha cells (fun c hc => hs c (List.mem_append_left _ hc)))
+      (ihb cells (fun c hc => hs c (List.mem_append_right _ hc)))
+  · intro _ _ _ _ _ _ _ iha ihb cells hs
+    exact .letTup (iha cells (fun c hc => hs c (List.mem_append_left _ hc)))
+      (ihb cells (fun c hc => hs c (List.mem_append_right _ hc)))
+  · intro _ _ _ _ _ _ _ iha ihb cells hs
+    exact .assign (iha cells (fun c hc => hs c (List.mem_append_left _ hc)))
+      (ihb cells (fun c hc => hs c (List.mem_append_right _ hc)))
+  · intro _ _ _ _ ih cells hs; exact .proj (ih cells hs)
+  · intro _ _ _ ih cells hs; exact .tup (ih cells hs)
+  · intro _ _ _ _ _ _ ihf ihargs cells hs
+    exact .app (ihf cells (fun c hc => hs c (List.mem_append_left _ hc)))
+      (ihargs cells (fun c hc => hs c (List.mem_append_right _ hc)))
+  · intro _ _ _ _ ih cells hs
+    exact .mem (ih cells (fun c hc => hs c (List.mem_append_left _ hc))) (hs _ (List.mem_append_right _ (by simp)))
+  · intro _ _ _ _ _ _ _ _ iha iht cells hs
+    exact .delay (iha cells (fun c hc => hs c (List.mem_append_left _ (List.mem_append_left _ hc))))
+      (iht cells (fun c hc => hs c (List.mem_append_left _ (List.mem_append_right _ hc))))
+      (hs _ (List.mem_append_right _ (by simp)))
+  · intro _ _ _ _ cells' _ _ hself _ ihargs ihbody cells hs
+    exact .call (ihargs cells (fun c hc => hs c (List.mem_append_left _ hc)))
+      (hs _ (List.mem_append_right _ (by simp))) hself
+      (fun d hd => ihbody d hd cells' (fun _ hc => hc))
+  · intro cells _ e hm; simp at hm
+  · intro _ _ _ _ _ _ ihe ihes cells hs e hm
+    simp only [List.mem_cons] at hm
+    rcases hm with rfl | hm
+    · exact ihe cells (fun c hc => hs c (List.mem_append_left _ hc))
+    · exact ihes cells (fun c hc => hs c (List.mem_append_right _ hc)) e hm
+
+/-- **the published layout covers the body, for EVERY program**: every stateful construct of the body, in either arm of any
+`if`, owns a cell of its kind -/
+theorem publishFnN_coversA (n : Nat) (P : Prog) (d : FnDecl) (lay : LNode) (hpub : publishFnN n P d = some lay) :
+    lay.self = d.selfShape ∧ Covers P lay.cells d.body := by
+  obtain ⟨hself, hcells⟩ := publishFnN_inv hpub
+  exact ⟨hself, visitsA_covers P (publishEN_visitsA n P d.body lay.cells hcells) lay.cells (fun _ hc => hc)⟩
+
 end Mimium.Publish
